@@ -30,11 +30,17 @@
    No proofs here. *)
 From Coq Require Import ZArith List String Ascii Bool.
 From Verif Require Import Base.Res Base.Bytes.
-From Verif Require Gen.GenOperators Gen.GenGetAsInt.
+From Verif Require Gen.GenOperators Gen.GenGetAsInt Gen.GenTreeCachePins.
 Import ListNotations.
 Open Scope string_scope.
 Open Scope list_scope.
 Open Scope Z_scope.
+
+(* The source text of hoist() (incl. its copy.copy calls), wrap_impure, the resolve() methods, the
+   fixup_label closure and metacommands.repeat is pinned by tools/gens/gen_treecache.py: an edit
+   there aborts the translator and this file's dependants report a broken obligation. *)
+Definition pinned_source : list string * nat :=
+  (GenTreeCachePins.pinned_functions, GenTreeCachePins.hoist_copy_calls).
 
 (* ------------------------------------------------------------------------------------------ *)
 (* the token tree *)
